@@ -21,7 +21,7 @@
     Proofs: InterDiffThm.v ([difference_correct], [difference_filter],
     [covering_difference_correct], [*_mut_mirrors]), SetOpsExtra.v. *)
 From Coq Require Import List NArith Sorted Bool.
-From PT Require Import Lookup ViewsThm InterDiffThm SetOpsExtra.
+From PT Require Import Lookup ViewsThm InterDiffThm SetOpsExtra Arena Arena3 ArenaProps.
 From PT.Properties Require Import Common.
 Import ListNotations.
 
@@ -202,6 +202,36 @@ Proof.
   - exact (view_at_wf pfx _ _ _ _ _ _ _ _ _ (laws w fl Hw) _ qb vb (reachable_wfm w fl R Hw opsB HB) Hqb Eb).
 Qed.
 
+(** * The same statement about the ARENA-level transcription of the code (Arena*.v; ArenaProps.v
+      composes the refinement [Rep] with the tree-level theorem): both operands are arenas reachable
+      from the empty arena by any history over the whole alphabet; the iterators run at the two roots. *)
+Theorem C07_arena_difference (amL : Arena.amap pfx L) (amR : Arena.amap pfx R) esL esR :
+  areach pfx L (peq w) (contains w fl) (is_bit_set w) plen (lcp w fl) pzero (okp w) amL -> areach pfx R (peq w) (contains w fl) (is_bit_set w) plen (lcp w fl) pzero (okp w) amR ->
+  Arena.a_entries pfx L amL = Arena.Ok esL -> Arena.a_entries pfx R amR = Arena.Ok esR ->
+  exists out outm,
+    Arena3.a_difference pfx L R (contains w fl) (is_bit_set w) plen (mcmp w) (Arena.tbl amL) (Arena.tbl amR) 0 0 = Arena.Ok out /\
+    InterDiffThm.diff_spec pfx L R (kbits w) esL esR out /\
+    map fst out = filter (fun e => negb (existsb (fun e' => Bits.beq (kbits w (fst e')) (kbits w (fst e))) esR)) esL /\
+    Arena3.a_difference_mut pfx L R (contains w fl) (is_bit_set w) plen (mcmp w) (Arena.tbl amL) (Arena.tbl amR) 0 0 = Arena.Ok outm /\
+    out = map (fun '(p, (_, l), ann) => (p, l, ann)) outm.
+Proof.
+  intros HL HR EL ER.
+  exact (arena_C07_C08_difference pfx L R _ _ _ _ _ _ _ _ _ (laws w fl Hw) amL amR esL esR HL HR EL ER).
+Qed.
+
+Theorem C07_arena_covering_difference (amL : Arena.amap pfx L) (amR : Arena.amap pfx R) esL esR :
+  areach pfx L (peq w) (contains w fl) (is_bit_set w) plen (lcp w fl) pzero (okp w) amL -> areach pfx R (peq w) (contains w fl) (is_bit_set w) plen (lcp w fl) pzero (okp w) amR ->
+  Arena.a_entries pfx L amL = Arena.Ok esL -> Arena.a_entries pfx R amR = Arena.Ok esR ->
+  exists out outm,
+    Arena3.a_covering_difference pfx L R (contains w fl) (is_bit_set w) plen (mcmp w) (Arena.tbl amL) (Arena.tbl amR) 0 0 = Arena.Ok out /\
+    InterDiffThm.cdiff_spec pfx L R (kbits w) esL esR out /\
+    Arena3.a_covering_difference_mut pfx L R (contains w fl) (is_bit_set w) plen (mcmp w) (Arena.tbl amL) (Arena.tbl amR) 0 0 = Arena.Ok outm /\
+    out = map (fun '(p, (_, l)) => (p, l)) outm.
+Proof.
+  intros HL HR EL ER.
+  exact (arena_C07_covering_difference pfx L R _ _ _ _ _ _ _ _ _ (laws w fl Hw) amL amR esL esR HL HR EL ER).
+Qed.
+
 End C07.
 
 (** Non-vacuity (w = 8).  Map A = {00/2 ↦ 1, 01/2 ↦ 2, 1/1 ↦ 3, 110/3 ↦ 4} over [nat] (node 0/1
@@ -257,3 +287,5 @@ Print Assumptions C07_right_zero.
 Print Assumptions C07_covering_sub_difference.
 Print Assumptions C07_views.
 Print Assumptions C07_reachable.
+Print Assumptions C07_arena_difference.
+Print Assumptions C07_arena_covering_difference.
